@@ -89,6 +89,7 @@ type Profile struct {
 	Compress    bool
 	Rcodes      bool
 	Classes     bool
+	LongNames   float64 // probability that a new query name is filled up to (or to within a few octets of) the 255-octet limit; half of the fillers need escaping in the text form
 }
 
 var allListeners = []string{"udp", "udp", "tcp", "tcp", "gnet", "gnet", "tls", "tls", "http", "fasthttp", "https", "https", "quic"}
@@ -99,7 +100,7 @@ func baseProfile() Profile {
 		Listeners: allListeners, NListeners: [2]int{1, 3}, UpKinds: allUpKinds, NUpstreams: [2]int{1, 3},
 		NConns: [2]int{2, 6}, OpsPerConn: [2]int{1, 5}, SpanUs: 1_500_000, Cache: "mix", EDNSProb: 0.5,
 		Shapes: []string{"plain", "plain", "mixed"}, DelayUs: [2]int64{100, 30_000}, LingerUs: 8_000_000,
-		ECS: 0.4, IpMarker: 0.2, TTLs: "normal", Compress: true,
+		ECS: 0.4, IpMarker: 0.2, TTLs: "normal", Compress: true, LongNames: 0.04,
 	}
 }
 
@@ -110,6 +111,7 @@ func ProfileFor(focus, arm string) Profile {
 	case "C01":
 		p.Garbage, p.GarbageReply, p.OddQueries = 0.5, 0.3, 0.1
 		p.DupReply = 0.15
+		p.LongNames = 0.1
 		p.NConns, p.OpsPerConn = [2]int{4, 10}, [2]int{1, 6}
 		p.Seg = true
 		p.SpanUs = 3_000_000
@@ -129,6 +131,7 @@ func ProfileFor(focus, arm string) Profile {
 	case "C03":
 		p.OddQueries = 0.35
 		p.OddHdr = 0.15
+		p.LongNames = 0.08
 		p.LongLived = 0.15
 		p.Shapes = []string{"plain", "plain", "mixed", "tight"}
 		p.HugeAnswers = 0.1
@@ -259,6 +262,12 @@ func Generate(seed uint64, focus, arm string) *plan.Plan {
 		// no quarantine either: a doubly released array is handed out twice at once
 		p.Knobs.PassDoubleRelease = true
 		p.Knobs.Quarantine = 0
+	}
+	if (focus == "C04" || focus == "C13") && p.Family == "router" && r2.p(0.35) {
+		// buffers keep their contents when released and are reusable at once (as
+		// shipped): what is sent from a buffer released too early is then another
+		// response's bytes, not a pattern that no client can decode
+		p.Knobs.NoPoison, p.Knobs.Quarantine, p.Knobs.GetFill = true, 0, 0
 	}
 	// write batch size of the memory cache's backend: with the shipped 64 a
 	// short run never sees the deletion listener run for replaced or evicted
@@ -441,6 +450,42 @@ func genKnobs(r *rng, pr *Profile) plan.Knobs {
 	return k
 }
 
+// fillName inserts labels after the first one so that the name's wire form
+// has 255 octets (the longest a name can be), or a few less.  Half of the
+// fillers consist of octets that the text form escapes as \DDD.
+func fillName(r *rng, ls [][]byte) [][]byte {
+	target := []int{255, 255, 255, 254, 253, 250, 240}[r.intn(7)]
+	cur := 1
+	for _, l := range ls {
+		cur += len(l) + 1
+	}
+	rem := target - cur
+	if rem < 2 {
+		return ls
+	}
+	binary := r.p(0.5)
+	var fill [][]byte
+	for rem >= 2 {
+		n := min(63, rem-1)
+		if rem-(n+1) == 1 {
+			n--
+		}
+		l := make([]byte, n)
+		for i := range l {
+			if binary {
+				l[i] = []byte{1, 2, 7, 31, 127, 128, 200, 255, ' ', '_', '*', 0}[r.intn(12)]
+			} else {
+				l[i] = 'a' + byte(r.intn(26))
+			}
+		}
+		fill = append(fill, l)
+		rem -= n + 1
+	}
+	out := append([][]byte{}, ls[0])
+	out = append(out, fill...)
+	return append(out, ls[1:]...)
+}
+
 func mixCase(r *rng, b []byte) []byte {
 	o := append([]byte(nil), b...)
 	for i, c := range o {
@@ -564,6 +609,7 @@ func genRouter(r *rng, pr *Profile, focus, arm string) *plan.RouterPlan {
 		rp.Cache.MaxTTL = []int{1, 60, 86400}[r.intn(3)]
 	}
 	rp.ECS = r.p(pr.ECS)
+	rp.LogQueries = r.p(0.2)
 	if r.p(pr.IpMarker) {
 		rp.Cache.IpMarker = []plan.RangeSpec{
 			{"192.0.2.0", "192.0.2.255", "net-a"}, {"198.51.100.0", "198.51.100.127", "net-b"},
@@ -679,6 +725,9 @@ func genRouter(r *rng, pr *Profile, focus, arm string) *plan.RouterPlan {
 				ls = append(ls, labelsOf(r.pick(zones))...)
 				for i := range ls {
 					ls[i] = mixCase(r, ls[i])
+				}
+				if r.p(pr.LongNames) {
+					ls = fillName(r, ls)
 				}
 				op.Labels = ls
 				rp.Tokens[op.Token] = genToken(r, pr, op.Type)
@@ -808,6 +857,7 @@ func genToken(r *rng, pr *Profile, qtype uint16) *plan.TokenSpec {
 	if pr.Compress {
 		a.Compress = r.intn(4)
 	}
+	a.MaxNames = r.p(0.06)
 	d := func() int64 { return r.i64(pr.DelayUs[0], pr.DelayUs[1]) }
 	switch {
 	case r.p(pr.FailActs):
